@@ -120,6 +120,18 @@ func harnessFiles(pkgDir, property string, native bool) (map[string][]byte, stri
 	if pkgName == "" {
 		return nil, "", nil, fmt.Errorf("no harness files for %s in %s", property, dir)
 	}
+	// shared models (bank, ...) compiled into every harnessed package
+	if shared, err := os.ReadDir(filepath.Join(verifDir, "harness", "shared")); err == nil {
+		for _, e := range shared {
+			if strings.HasSuffix(e.Name(), ".go.tmpl") {
+				b, err := os.ReadFile(filepath.Join(verifDir, "harness", "shared", e.Name()))
+				if err != nil {
+					return nil, "", nil, err
+				}
+				ov[filepath.Join(repoDir, pkgDir, strings.TrimSuffix(e.Name(), ".tmpl"))] = []byte(strings.ReplaceAll(string(b), "@PKG@", pkgName))
+			}
+		}
+	}
 	tmpl := "nd_sym.go.tmpl"
 	if native {
 		tmpl = "nd_native.go.tmpl"
